@@ -1,8 +1,8 @@
 """C06 — typed values are fixed points of convert."""
 import typing as t
 
-from .. import env, genval, gentypes, drive, deepeq, native
-from ..common import observe, build_type
+from .. import env, genval, gentypes, drive, deepeq, native, model
+from ..common import observe, build_type, plain_data
 from ..ctx import short
 from ..deepeq import deep_typed_eq
 from ..locate import locate, contains, union_member_of
@@ -56,7 +56,13 @@ def classify(ty, x):
             j_true = union_member_of(ty, x)
             j_parse = next((j for j, A in enumerate(members) if observe(env.from_data, d.val, A).kind == 'value'), None)
             if j_parse is not None and j_true is not None and j_parse < j_true:
-                return 'untagged-union-reparse-ambiguity'
+                # the inherent ambiguity only if the earlier member is RIGHT to read that data (the reference model does not refuse it)
+                try:
+                    wrong = len(members) == len(ty.a) and model.spec(ty.a[j_parse], plain_data(d.val)).v == model.REJ
+                except Exception:
+                    wrong = False
+                if not wrong:
+                    return 'untagged-union-reparse-ambiguity'
     return c05.classify(ty, x) if ty.k in ('dc', 'dict', 'counter') else None
 
 
